@@ -194,4 +194,14 @@ theorem normalize_scheme {scheme rest ns : Str} (hns : ns = nsIpfs ∨ ns = nsIp
   rw [hf]
   simp only [hl, hd]
 
+/-- the laws of the external codecs used by `ipns.Name` (checked on the real go-libp2p / go-cid
+functions by the harness monitor on every run) -/
+structure NameCodec.Lawful (k : NameCodec) : Prop where
+  /-- `peer.Decode` of the base36 libp2p-key CID string of a multihash gives the multihash back -/
+  decode_encode : ∀ m, k.validMh m = true → k.peerDecode (k.cidB36 m) = some m
+  /-- the base36 string starts with the multibase prefix, never with `/ipns/` -/
+  encode_no_ns : ∀ m, nsPrefix.isPrefixOf (k.cidB36 m) = false
+  /-- a decoded peer ID is a well-formed multihash -/
+  decode_valid : ∀ s m, k.peerDecode s = some m → k.validMh m = true
+
 end C28
